@@ -10,7 +10,7 @@ import copy, json, re
 from hypothesis import strategies as st
 
 from vf import findings, hyp
-from vf.gens import holes, c12_shapes as shapes
+from vf.gens import holes, c12_shapes as shapes, c12_more as more
 from vf.oracles.struct import struct, walk
 from vf.props.c02 import site_of
 
@@ -25,8 +25,15 @@ RULE = ('cases = histories of 2..8 (thorough ..20) calls on one QueryPlanner dra
         'holes), WHERE, JOIN ON, CASE operand/WHEN/THEN/ELSE, function arguments incl. substring(x FROM ?), IN lists, '
         'BETWEEN bounds, sub-selects on either side of a join / in WHERE / scalar, set operations, CTEs, INSERT VALUES '
         '(1-3 rows) and INSERT..SELECT, UPDATE SET / FROM / WHERE, DELETE, CREATE TABLE (select), GROUP BY / HAVING / '
-        'ORDER BY, window PARTITION/ORDER, predictor selects; values = ints (negative too), 2-decimal floats, strings '
-        'without quotes/backslashes; judged: reported parameter count == n; steps of execute_steps(values) == steps of '
+        'ORDER BY, window PARTITION/ORDER, predictor selects; from vf/gens/c12_more.py: a hole under one or two minus signs '
+        'in any of these positions (numbers only), SHOW .. WHERE / SET name = value / CREATE KNOWLEDGE_BASE .. FROM (select) '
+        '(statements the planner does not plan: count, count check and bound tree are judged), selects joining a '
+        'time-series model (catalog ts), a bounded list of further shapes (CTE referenced twice / in DML / in a sub-select, '
+        '`? OVER`, window frame, substring(? FROM ? FOR ?), `? :: type`, row tuples, `a IN ?`, implicit join, 4 tables, '
+        'sub-selects on the 2nd and 3rd join, UNION .. ORDER BY, USING, UPDATE .. ON keys, CREATE OR REPLACE TABLE / '
+        'CREATE TABLE t SELECT), prepare whose column steps are never run, executions dropped unconsumed; '
+        'values = ints (negative too), 2-decimal floats, booleans, strings without backslashes (quote characters '
+        'included); judged: reported parameter count == n; steps of execute_steps(values) == steps of '
         'plan_query(parse(inlined text)) (PlanStep == and structural identity); no Parameter(?) left; wrong count raises '
         'PlanningException; non-trivial = a history that executes a template with n >= 2 holes in >= 2 different clauses '
         'and whose plans (or, when both paths refuse to plan, bound trees) were compared; distinct by the whole history')
@@ -34,7 +41,11 @@ ASSUMPTIONS = ['the parser is trusted to build the same tree for the `?` text an
                '(cross-checked per case: every difference must be Parameter -> Constant(v) and the multiset of v must be '
                'the value list, otherwise the case is dropped and counted)',
                'mindsdb dialect only; placeholders in LIMIT/OFFSET and in table position are outside the grammar / the '
-               'property\'s expression positions; a hole directly under a unary minus is not generated',
+               'property\'s expression positions; a hole directly under a unary minus takes numbers only (the '
+               'parser rejects a minus sign before a string or NULL, so no inlined statement exists for other values) and its '
+               'inlined image is the folded constant (`- ?` with 5 is compared with Constant(-5), as the parser reads `-5`)',
+               'for SHOW / SET / CREATE KNOWLEDGE_BASE (plan_query refuses the statement kind, execute_steps yields no steps) '
+               'only the reported count, the count check and the bound tree (utils.fill_query_params) are judged',
                'a prepare refused with an exception is judged only against preparing the inlined statement (same '
                'exception type = consistent refusal), unless the exception is not a PlanningException and plan_query plans '
                'the inlined statement (a crash, not a refusal)',
@@ -50,7 +61,7 @@ _Q = {'__nontrivial__': 1411, 'exec:plans-compared': 1810, 'exec:nontrivial': 15
       'clause:set': 250, 'clause:values': 140, 'pos:case-operand': 270, 'pos:case-when': 310,
       'pos:case-then': 360, 'pos:case-else': 190, 'pos:func-arg': 280, 'pos:func-from-arg': 110,
       'pos:in-list': 880, 'pos:between': 560, 'scope:sub-left': 190, 'scope:sub-right': 180,
-      'scope:sub-where': 360, 'deco:alias': 660, 'tag:insert:rows=2': 50, 'tag:insert:rows=3': 50,
+      'scope:sub-where': 360, 'deco:alias': 660, 'tag:insert:rows=2': 30, 'tag:insert:rows=3': 30,
       'tag:stmt:update': 280, 'tag:stmt:delete': 80, 'op:info': 750, 'op:wrong-count': 750, 'wrong:fewer': 450,
       'wrong:more': 230, 'hist:exec-on-reused-planner': 1000, 'hist:exec-after-wrong-count': 410,
       'hist:prepare-over-unexecuted': 680, 'val:int-negative': 900, 'val:float': 1100, 'val:str': 1350,
@@ -59,9 +70,21 @@ _Q = {'__nontrivial__': 1411, 'exec:plans-compared': 1810, 'exec:nontrivial': 15
       'tag:cte:on-setop': 140, 'tag:cte:before-setop': 55, 'tag:setop-chain:flat': 155,
       'tag:setop-chain:paren-left': 45, 'tag:setop-chain:paren-right': 35, 'tag:setop-chain:n=4': 70,
       'prepare:placeholder-dropped-by-parser': 100, 'hist:cte-name-of-earlier-statement': 40,
-      'tag:update:set-column-twice': 15}
-FLOORS = {'quick': _Q, 'thorough': {k: 10 * v for k, v in _Q.items()}}
-N = {'quick': 400, 'thorough': 6000}
+      'tag:update:set-column-twice': 15,
+      # hunting wave (vf/gens/c12_more.py)
+      'catalog:ts': 80, 'deco:under-minus': 430, 'deco:under-minus:2': 170, 'exec:statement-kind-not-planned': 25,
+      'hist:execution-abandoned': 230, 'hist:prepare-steps-not-consumed': 310, 'tag:cte:twice': 85,
+      'tag:stmt:extra': 200, 'tag:stmt:ts': 40, 'tag:stmt:unplanned': 220, 'tag:unplanned:kb': 16,
+      'tag:unplanned:set': 60, 'tag:unplanned:show': 150, 'val:bool': 540, 'tag:ts:latest': 6, 'tag:ts:between': 6,
+      'tag:ts:under-insert': 4, 'tag:ts:under-create': 7}
+# classes that come (almost) only from the fixed list of histories: the same floor in both tiers
+_QF = {'tag:ts:no-group': 2, 'tag:expr:row-tuples': 2, 'tag:update:on-keys': 2, 'tag:create:bare-select': 2,
+       'tag:create:or-replace': 2, 'tag:join:sub-second-third': 3, 'tag:join:implicit': 3, 'tag:join:4': 3,
+       'tag:expr:in-operand': 3, 'tag:expr:func-from-for': 3, 'tag:expr:cast-colons': 2, 'tag:expr:window-frame': 3,
+       'tag:expr:func-distinct': 2, 'tag:cte:in-dml': 10, 'tag:cte:in-sub': 3, 'tag:cte:setop-body': 4,
+       'tag:having:in-between': 2, 'tag:pred:using': 4}
+FLOORS = {'quick': dict(_Q, **_QF), 'thorough': dict({k: 10 * v for k, v in _Q.items()}, **_QF)}
+N = {'quick': 520, 'thorough': 7800}
 MAX_OPS = {'quick': 8, 'thorough': 20}
 MAX_DEPTH = {'quick': 2, 'thorough': 3}
 
@@ -78,8 +101,17 @@ _CATALOGS = {
                               {'name': 'int2', 'class_type': 'sql', 'type': 'data'}], default_namespace='mindsdb'),
     'predictor': dict(integrations=['int1', 'int2'], default_namespace='mindsdb', predictor_namespace='mindsdb',
                       predictor_metadata=[{'name': 'pred', 'integration_name': 'mindsdb'}]),
+    'ts': dict(integrations=['int1', 'int2'], default_namespace='mindsdb', predictor_namespace='mindsdb',
+               predictor_metadata=[{'name': 'tp', 'integration_name': 'mindsdb', 'timeseries': True, 'window': 10,
+                                    'horizon': 3, 'order_by_column': 'a', 'group_by_columns': ['b']},
+                                   {'name': 'tp0', 'integration_name': 'mindsdb', 'timeseries': True, 'window': 5,
+                                    'horizon': 1, 'order_by_column': 'a', 'group_by_columns': []},
+                                   {'name': 'pred', 'integration_name': 'mindsdb'}]),
 }
-CATALOG_NAMES = ['names', 'names', 'dicts', 'default-int1', 'api', 'predictor']
+CATALOG_NAMES = ['names', 'names', 'names', 'dicts', 'dicts', 'default-int1', 'default-int1', 'api', 'api', 'predictor',
+                 'predictor', 'ts']
+PREDICTOR_CATALOGS = ('predictor', 'ts')
+MECHANISM_TAGS = shapes.MECHANISM_TAGS + more.MECHANISM_TAGS
 
 
 def catalog(name):
@@ -199,6 +231,18 @@ def check_inlining(timg, eimg, values):
     ds = all_diffs(canon(timg, drop_exists_query=True), canon(eimg, drop_exists_query=True), limit=200)
     seen = []
     for path, a, b in ds:
+        signs = minus_chain(a) if _cls(b) == 'Constant' else None
+        if signs:
+            # `- ?` against `-5`: the parser reads the sign as part of the number
+            fa, fb = dict(a[2:]), dict(b[2:])
+            v = fb.get('value')
+            if fa.get('alias') != fb.get('alias') or fa.get('parentheses') != fb.get('parentheses'):
+                return f'decoration differs at {path}'
+            if v[0] not in ('int', 'float'):
+                return f'unexpected folded literal at {path}'
+            num = float(v[1]) if v[0] == 'float' else v[1]
+            seen.append(struct(-num if signs % 2 else num))
+            continue
         if _cls(a) != 'Parameter' or _cls(b) not in ('Constant', 'NullConstant'):
             return f'difference outside the holes at {path}'
         fa, fb = dict(a[2:]), dict(b[2:])
@@ -213,6 +257,26 @@ def check_inlining(timg, eimg, values):
     if sorted(seen, key=repr) != sorted(want, key=repr):
         return f'{len(seen)} literal(s) found in the holes for {len(want)} value(s)'
     return None
+
+
+def minus_chain(img, leaf='Parameter'):
+    """Number of minus signs when img is `- .. - <leaf>` (leaf and inner signs bare: no alias, no parentheses), else None."""
+    n = 0
+    while _cls(img) == 'UnaryOperation':
+        f = dict(img[2:])
+        args = f.get('args')
+        if f.get('op') != ('str', '-') or not isinstance(args, tuple) or len(args) != 2:
+            return None
+        if n and (f.get('alias') != ('NoneType', None) or f.get('parentheses') != ('bool', False)):
+            return None
+        img = args[1]
+        n += 1
+    if not n or _cls(img) != leaf:
+        return None
+    f = dict(img[2:])
+    if f.get('alias') != ('NoneType', None) or f.get('parentheses') != ('bool', False):
+        return None
+    return n
 
 
 def lost_decorations(ds):
@@ -235,6 +299,10 @@ def binding_tags(ds, values):
     for path, a, b in ds:
         if _cls(a) == 'Parameter':
             tags.add('binding:left-unbound')
+        elif _cls(b) == 'Constant' and minus_chain(a, 'Constant'):
+            tags.add('binding:sign-not-folded')
+        elif _cls(b) == 'Constant' and minus_chain(a, 'Parameter'):
+            tags.add('binding:left-unbound')
         elif _cls(a) == 'Constant' and _cls(b) == 'NullConstant' and dict(a[2:]).get('value') == ('NoneType', None):
             tags.add('binding:null-as-constant')
         elif path.endswith('<Constant>.value'):
@@ -254,6 +322,8 @@ def hole_features(parts):
         f.add('hole:aliased')
     if any((h.get('d') or '').startswith('paren') for h in hs):
         f.add('hole:parenthesised')
+    if any(h.get('neg') for h in hs):
+        f.add('hole:under-minus')
     return f
 
 
@@ -275,6 +345,9 @@ def template_classes(parts):
             out.add('deco:alias')
         if d.startswith('paren'):
             out.add('deco:paren')
+        if h.get('neg'):
+            out.add('deco:under-minus')
+            out.add('deco:under-minus:%d' % h['neg'])
     n = len(hs)
     out.add('n=0' if n == 0 else 'n=1' if n == 1 else 'n>=2')
     if n >= 5:
@@ -286,6 +359,7 @@ def judge_exec(pl, st_, values, etree, cat, cfg, classes):
     """execute(values) on the prepared statement st_ against the inlined text.  Returns (records, compared)."""
     from mindsdb_sql import parse_sql
     from mindsdb_sql.planner import plan_query, utils
+    from mindsdb_sql.exceptions import PlanningException
     parts, tpl, n = st_['parts'], st_['tpl'], st_['n']
     inl = shapes.text(parts, values)
     feats = set(st_['feats'])
@@ -314,6 +388,16 @@ def judge_exec(pl, st_, values, etree, cat, cfg, classes):
         out.append(findings.record('values-mutated', 'execute_steps', feats, cfg, f'{values!r} -> {vals!r}', tpl))
     detail_head = f'values={values!r}; inlined: {inl[:200]}'
     compared = False
+    if 'stmt:unplanned' in feats and got_exc is None and not got and isinstance(exp_exc, PlanningException) \
+            and str(exp_exc).startswith('Unsupported query type'):
+        # a statement kind the planner does not plan (the caller executes it itself): no steps on either path;
+        # what binding makes of the tree is observed at utils.fill_query_params
+        classes.add('exec:statement-kind-not-planned')
+        if fill_exc is not None:
+            out.append(findings.record('fill-raises', site_of(fill_exc), feats, cfg, f'{fill_exc!r}; {detail_head}', tpl))
+        elif d1:
+            out.extend(tree_records('fill-differs', d1, lost, values, feats, cfg, detail_head, tpl))
+        return out, fill_exc is None
     if got_exc is None and not got and (exp_exc is not None or exp):
         out.append(findings.record('not-planned', 'execute_steps yields no steps', feats, cfg,
                                    'the prepared statement executes to an empty step list; the inlined statement '
@@ -322,8 +406,8 @@ def judge_exec(pl, st_, values, etree, cat, cfg, classes):
         return out, False
     if got_exc is not None and exp_exc is not None:
         if type(got_exc) is not type(exp_exc):
-            out.append(findings.record('exception-mismatch', f'{type(got_exc).__name__}!={type(exp_exc).__name__}', feats,
-                                       cfg, f'{got_exc!r} vs {exp_exc!r}; {detail_head}', tpl))
+            out.append(findings.record('exception-mismatch', f'{type(got_exc).__name__}!={type(exp_exc).__name__}',
+                                       feats | binding_tags(d1, values), cfg, f'{got_exc!r} vs {exp_exc!r}; {detail_head}', tpl))
         else:
             classes.add('exec:both-refuse')
             classes.add('refuse:' + type(exp_exc).__name__)
@@ -464,7 +548,7 @@ def judge(case, col):
                     col.excluded(f'parsed template holds {k} Parameter nodes for {n} holes')
                     continue
             feats = hole_features(parts) | {'stmt:' + type(tree).__name__.lower()} \
-                | {t for t in tags if t in shapes.MECHANISM_TAGS}
+                | {t for t in tags if t in MECHANISM_TAGS}
             if same:
                 feats.add('hist:same-tree-prepared-again')
                 classes.add('hist:same-tree-again')
@@ -477,7 +561,12 @@ def judge(case, col):
             if prev_unexecuted:
                 classes.add('hist:prepare-over-unexecuted')
             try:
-                drive_prepare(pl, tree)
+                if op.get('lazy'):
+                    # the caller asks for the parameters only: the column-discovery steps are not run
+                    classes.add('hist:prepare-steps-not-consumed')
+                    pl.prepare_steps(tree)
+                else:
+                    drive_prepare(pl, tree)
             except Exception as e:
                 # refused: judged against preparing the statement with literals
                 probe = shapes.text(parts, list(range(1, n + 1)))
@@ -573,12 +662,30 @@ def judge(case, col):
             tc = template_classes(cur['parts'])
             classes |= tc
             classes |= {'tag:' + t for t in cur['tags'] if t.startswith(('stmt:', 'sub:', 'setop:', 'pred:', 'insert:',
-                                                                          'update:', 'cte', 'expr:', 'setop-chain:'))}
+                                                                          'update:', 'cte', 'expr:', 'setop-chain:',
+                                                                          'unplanned:', 'ts:', 'join:', 'having:',
+                                                                          'create:'))}
             if compared and cur['n'] >= 2 and len(clauses_of(cur['parts'])) >= 2:
                 nontrivial = True
                 classes.add('exec:nontrivial')
                 if again:
                     classes.add('exec:nontrivial-again')
+        elif kind == 'abandon':
+            # execute_steps(values) whose step generator is dropped unconsumed / after the first step
+            values = op['v']
+            if cur is None or len(values) != cur['n']:
+                continue
+            classes.add('hist:execution-abandoned')
+            summary.append(f'execute {values!r}, steps ' + ('not consumed' if not op.get('first') else 'dropped after one'))
+            try:
+                it = pl.execute_steps(list(values))
+                if op.get('first'):
+                    next(iter(it), None)
+            except Exception:
+                pass
+            cur['executed'] = True
+            if last_prep is not None:
+                last_prep['executed'] = True
         elif kind == 'wrong':
             values = op['v']
             if cur is None or (values is None and cur['n'] == 0) or (values is not None and len(values) == cur['n']):
@@ -652,9 +759,12 @@ def histories(draw, max_ops=8, max_depth=2):
             kind = draw(st.sampled_from(['exec'] * 8 + ['info'] * 4 + ['wrong'] * 4 + ['prepare'] * 4
                                         + (['same'] if n >= 1 else [])))
         if kind == 'prepare':
-            t = draw(shapes.template(cat, predictor=(cat == 'predictor'), max_depth=max_depth))
+            t = draw(more.template(cat, predictor=(cat in PREDICTOR_CATALOGS), max_depth=max_depth))
             ops.append({'op': 'prepare', 't': t['parts'], 'tags': t['tags']})
-            n = len(holes.holes(t['parts']))
+            if draw(st.integers(0, 9)) == 0:
+                ops[-1]['lazy'] = True
+            parts = t['parts']
+            n = len(holes.holes(parts))
             executed = False
         elif kind == 'same':
             ops.append({'op': 'prepare', 'same': True})
@@ -662,13 +772,15 @@ def histories(draw, max_ops=8, max_depth=2):
         elif kind == 'info':
             ops.append({'op': 'info'})
         elif kind == 'exec':
-            ops.append({'op': 'exec', 'v': draw(shapes.values(n))})
+            if draw(st.integers(0, 11)) == 0:
+                ops.append({'op': 'abandon', 'v': draw(more.values_for(parts)), 'first': draw(st.booleans())})
+            ops.append({'op': 'exec', 'v': draw(more.values_for(parts))})
             executed = True
         else:
             m = draw(st.sampled_from([k for k in range(n + 3) if k != n] + ([None] if n >= 1 else [])))
             ops.append({'op': 'wrong', 'v': None if m is None else draw(shapes.values(m))})
     if not executed:
-        ops.append({'op': 'exec', 'v': draw(shapes.values(n))})
+        ops.append({'op': 'exec', 'v': draw(more.values_for(parts))})
     return {'catalog': cat, 'ops': ops}
 
 
@@ -721,6 +833,16 @@ def fixed_histories():
                                                 {'op': 'exec', 'v': v2[:n]}]})
             out.append({'catalog': cat, 'ops': [prep, {'op': 'exec', 'v': v1}, {'op': 'prepare', 'same': True},
                                                 {'op': 'info'}, {'op': 'exec', 'v': v2[:n]}]})
+    # the shapes of c12_more (hunting wave): 2 history forms each
+    for cat, lst in (('names', more.EXTRA + more.UNPLANNED), ('dicts', more.EXTRA + more.UNPLANNED),
+                     ('predictor', more.EXTRA_PREDICTOR), ('ts', more.TS + more.EXTRA_PREDICTOR)):
+        for parts, tags in lst:
+            v1, v2 = more.fixed_values(parts, 101)
+            prep = {'op': 'prepare', 't': parts, 'tags': tags}
+            out.append({'catalog': cat, 'ops': [prep, {'op': 'info'}, {'op': 'exec', 'v': v1}]})
+            out.append({'catalog': cat, 'ops': [dict(prep, lazy=True), {'op': 'wrong', 'v': v1 + [1]},
+                                                {'op': 'exec', 'v': v2}, {'op': 'info'}, {'op': 'wrong', 'v': v1[:-1]},
+                                                {'op': 'abandon', 'v': v1, 'first': True}, {'op': 'exec', 'v': v1}]})
     return out
 
 
@@ -731,7 +853,8 @@ def run_shard(col, k, nshards, tier, seed):
                 col.fail(r, c)
     col.exhaustive_parts.append('fixed list of histories: set-operation chains (flat / parenthesised pair left / right), '
                                 'WITH before and on a set operation, UPDATE SET naming a column twice, x 3 catalogs x 4 '
-                                'history forms')
+                                'history forms; the lists EXTRA / EXTRA_PREDICTOR / UNPLANNED / TS of vf/gens/c12_more.py x 2 '
+                                'catalogs x 2 history forms')
     hyp.explore(col, histories(MAX_OPS[tier], MAX_DEPTH[tier]), judge, N[tier], seed,
                 shrink_key=lambda r: (r['kind'], r['site'][:40]))
     total = col.evaluations
